@@ -772,6 +772,7 @@ func ruleAgeFirstMember(c *Ctx, rule string) {
 	desc := "the Age text that is decoded is one list member (the first), not the whole field"
 	n := 0
 	bad := ""
+	badLast := ""
 	for _, fn := range c.reachableFrom(ca) {
 		instrsOf(fn, func(in ssa.Instruction) {
 			call, ok := in.(*ssa.Call)
@@ -783,6 +784,7 @@ func ruleAgeFirstMember(c *Ctx, rule string) {
 				return
 			}
 			n++
+			lastWins := ""
 			// forward: does every decoder input derived from this read pass a member separator?
 			split := false
 			seen := map[ssa.Value]bool{}
@@ -807,6 +809,33 @@ func ruleAgeFirstMember(c *Ctx, rule string) {
 								rs := sigResults(sc)
 								if len(rs) == 1 && strings.Contains(rs[0].String(), "iter.Seq") {
 									split = true
+									// the first member: the loop over the members is left after one turn (its body, a
+									// range-over-func function, has a `return false`); a body that only ever continues
+									// leaves the last member in the variable
+									if seqv, ok := r.(ssa.Value); ok && seqv.Referrers() != nil {
+										for _, u := range *seqv.Referrers() {
+											uc := callOf(u)
+											if uc == nil || uc.Value != seqv || len(uc.Args) != 1 {
+												continue
+											}
+											mc, ok := uc.Args[0].(*ssa.MakeClosure)
+											if !ok {
+												continue
+											}
+											body := mc.Fn.(*ssa.Function)
+											breaks := false
+											instrsOf(body, func(bi ssa.Instruction) {
+												if ret, ok := bi.(*ssa.Return); ok && len(ret.Results) == 1 {
+													if b, ok := constBool(ret.Results[0]); ok && !b {
+														breaks = true
+													}
+												}
+											})
+											if !breaks {
+												lastWins = c.P.ShortName(fn) + "@" + c.P.InstrPos(u)
+											}
+										}
+									}
 								}
 							}
 						}
@@ -823,6 +852,9 @@ func ruleAgeFirstMember(c *Ctx, rule string) {
 			if !split {
 				bad = c.P.ShortName(fn) + "@" + c.P.InstrPos(in)
 			}
+			if lastWins != "" {
+				badLast = lastWins
+			}
 		})
 	}
 	switch {
@@ -830,6 +862,8 @@ func ruleAgeFirstMember(c *Ctx, rule string) {
 		c.Undecided(rule, "age-first-member", desc, "no read of the Age field below the current-age function")
 	case bad != "":
 		c.Fail(rule, "age-first-member", desc, bad+": the whole field text goes to the decoder; `Age: 100, 20` is not delta-seconds, the field is ignored and the response is served with `Age: 0`, fresh 100 s too long")
+	case badLast != "":
+		c.Fail(rule, "age-first-member", desc, badLast+": the loop over the members never stops, so the last member is decoded; `Age: 100, 3` counts as 3 s: the hit carries `Age: 3` and `max-age=50, only-if-cached` is answered HIT from an entry 100 s old")
 	default:
 		c.Pass(rule, "age-first-member", desc, fmt.Sprintf("%d read(s) of Age", n))
 	}
